@@ -504,6 +504,18 @@ where
         let actor = operation.author();
         let dependencies = HashSet::from_iter(operation.dependencies().clone());
         let group_id = operation.group_id();
+
+        // All dependencies need to be part of the graph already, we can't derive the state an
+        // operation claims to build on otherwise.
+        let missing: Vec<OP> = dependencies
+            .iter()
+            .filter(|id| !y.inner.operations.contains_key(*id))
+            .cloned()
+            .collect();
+        if !missing.is_empty() {
+            return Err(GroupCrdtInnerError::StatesNotFound(missing).into());
+        }
+
         let rebuild_required =
             RS::rebuild_required(&y.inner, operation).map_err(GroupCrdtError::Resolver)?;
 
@@ -726,9 +738,17 @@ where
     let members_y = if action.is_create() {
         GroupMembersState::default()
     } else {
-        groups_y
-            .remove(&group_id)
-            .expect("group already present in states map")
+        match groups_y.remove(&group_id) {
+            Some(members_y) => members_y,
+            None => {
+                // The group does not exist (at this point in history), nobody can be
+                // authorised to change it.
+                return StateChangeResult::Error {
+                    state: groups_y,
+                    error: GroupMembershipError::UnrecognisedActor(GroupMember::Individual(actor)),
+                };
+            }
+        }
     };
 
     if filter.contains(&id) {
